@@ -1215,3 +1215,247 @@ MUTANTS += [
     {"name": "returned-position-not-reset-after-headers", "expect": "R1.2", "edits": _returned(_CALL_PRE, _CALL_PART, _RET_EARLY0) + [
         (M, "                self.state = State.DATA_START\n                self._search_position = 0\n", "                self.state = State.DATA_START\n")]},
 ]
+
+
+# ---------------------------------------------------------------------------
+# detection round 4: where the hold-back anchor cuts (R1.10) and what the header stage does with the rest of a
+# line break that a delimiter match left in the buffer (R1.11)
+
+_HEADER_LOOP = '''        for line in data.splitlines():
+            line = line.strip()
+
+            if line != b"":
+                name, _, value = line.decode().partition(":")
+                headers.append((name.strip(), value.strip()))
+        return Headers(headers)
+'''
+_STAGE_CALL = "                headers = self._parse_headers(self.buffer[: match.start()])\n"
+_HOLD_BOTH = "self.last_newline(data[data_start:]) + data_start"
+
+MUTANTS += [
+    # R1.10: the anchor is later than the start of the last line break for some order / adjacency of the last CR and LF
+    {"name": "anchor-last-lf-stepping-back-over-cr", "expect": "R1.10", "edits": [(M, _ANCHOR, '''        last_nl = data.rfind(b"\\n")
+
+        if last_nl == -1:
+            return len(data)
+
+        if data[:last_nl].endswith(b"\\r"):
+            return last_nl - 1
+
+        return last_nl
+''')]},
+    {"name": "anchor-index-arithmetic-on-the-byte-before-the-lf", "expect": "R1.10", "edits": [(M, _ANCHOR, '''        i = data.rfind(b"\\n")
+        if i < 0:
+            return len(data)
+        if i > 0 and data[i - 1 : i] == b"\\r":
+            i -= 1
+        return i
+''')]},
+    {"name": "anchor-latest-line-break-byte", "expect": "R1.10", "edits": [(M, _ANCHOR, '''        last = max(data.rfind(b"\\n"), data.rfind(b"\\r"))
+        return len(data) if last < 0 else last
+''')]},
+    {"name": "anchor-backward-scan-stops-at-lf-only", "expect": "R1.10", "edits": [(M, _ANCHOR, '''        i = len(data)
+        while i > 0:
+            i -= 1
+            if data[i : i + 1] == b"\\n":
+                return i
+        return len(data)
+''')]},
+    {"name": "anchor-rpartition-on-lf-only", "expect": "R1.10", "edits": [(M, _ANCHOR, '''        head, sep, _ = data.rpartition(b"\\n")
+        return len(head) if sep else len(data)
+''')]},
+    {"name": "anchor-through-a-lookup-helper-asked-for-the-lf-twice", "expect": "R1.10", "edits": [(M, _ANCHOR, '''        nl = self._last(data, b"\\n")
+        cr = self._last(data, b"\\n")
+        return nl if cr > nl else cr
+
+    def _last(self, data: bytes, c: bytes) -> int:
+        i = data.rfind(c)
+        return len(data) if i == -1 else i
+''')]},
+    {"name": "hold-back-one-byte-after-the-anchor", "expect": "R1.10", "edits": [(M, _HOLD_B, _HOLD_B.replace(_HOLD_BOTH, _HOLD_BOTH + " + 1"))]},
+    # R1.11: the rest of a line break in front of the header block becomes a header
+    {"name": "header-lines-neither-stripped-nor-skipped-when-empty", "expect": "R1.11", "edits": [(M, _HEADER_LOOP, '''        for line in data.splitlines():
+            name, _, value = line.decode().partition(":")
+            headers.append((name.strip(), value.strip()))
+        return Headers(headers)
+''')]},
+    {"name": "header-pairs-by-comprehension-without-a-filter", "expect": "R1.11", "edits": [(M, _HEADER_LOOP, '''        pairs = [line.decode().partition(":") for line in data.splitlines()]
+        return Headers([(name.strip(), value.strip()) for name, _, value in pairs])
+''')]},
+    {"name": "header-line-guard-tests-for-none", "expect": "R1.11", "edits": [(M, _HEADER_LOOP, '''        for line in data.splitlines():
+            line = line.strip()
+
+            if line is not None:
+                name, _, value = line.decode().partition(":")
+                headers.append((name.strip(), value.strip()))
+        return Headers(headers)
+''')]},
+    {"name": "header-lines-from-a-generator-helper-that-keeps-empty-lines", "expect": "R1.11", "edits": [(M, _HEADER_LOOP, '''        for line in self._header_lines(data):
+            name, _, value = line.partition(":")
+            headers.append((name.strip(), value.strip()))
+        return Headers(headers)
+
+    @staticmethod
+    def _header_lines(block: bytes) -> t.Iterator[str]:
+        for raw in block.splitlines():
+            yield raw.strip().decode()
+''')]},
+    {"name": "headers-added-one-by-one-without-skipping-empty-lines", "expect": "R1.11", "edits": [(M, _HEADER_LOOP, '''        result = Headers()
+        for line in data.splitlines():
+            name, _, value = line.decode().partition(":")
+            result.add(name.strip(), value.strip())
+        return result
+''')]},
+    {"name": "header-block-through-a-local-copy-lines-not-skipped", "expect": "R1.11", "edits": [
+        (M, _STAGE_CALL, "                block = bytes(self.buffer[: match.start()])\n                headers = self._parse_headers(block)\n"),
+        (M, _HEADER_LOOP, '''        for line in data.splitlines():
+            name, _, value = line.decode().partition(":")
+            headers.append((name.strip(), value.strip()))
+        return Headers(headers)
+''')]},
+]
+
+TWINS += [
+    # the same anchor (earliest of the last LF and the last CR, the length when one is absent), spelled differently
+    {"name": "anchor-as-a-backward-scan-for-either-byte", "edits": [(M, _ANCHOR, '''        nl = cr = end = len(data)
+        for i in range(end - 1, -1, -1):
+            c = data[i : i + 1]
+            if c == b"\\n" and nl == end:
+                nl = i
+            elif c == b"\\r" and cr == end:
+                cr = i
+            if nl != end and cr != end:
+                break
+        return cr if cr < nl else nl
+''')]},
+    {"name": "anchor-by-rpartition", "edits": [(M, _ANCHOR, '''        head, sep, _ = data.rpartition(b"\\n")
+        nl = len(head) if sep else len(data)
+        head, sep, _ = data.rpartition(b"\\r")
+        cr = len(head) if sep else len(data)
+        return nl if nl <= cr else cr
+''')]},
+    {"name": "anchor-while-loops-per-byte-collected-in-a-list", "edits": [(M, _ANCHOR, '''        found = []
+        for c in (b"\\n", b"\\r"):
+            i = len(data) - 1
+            while i >= 0 and data[i : i + 1] != c:
+                i -= 1
+            found.append(i if i >= 0 else len(data))
+        return min(found)
+''')]},
+    {"name": "anchor-through-a-two-argument-lookup-helper", "edits": [(M, _ANCHOR, '''        return min(self._last(data, b"\\n"), self._last(data, b"\\r"))
+
+    def _last(self, data: bytes, c: bytes) -> int:
+        i = data.rfind(c)
+        return len(data) if i == -1 else i
+''')]},
+    {"name": "anchor-scan-over-byte-codes", "edits": [(M, _ANCHOR, '''        nl = cr = len(data)
+        i = len(data)
+        while i > 0 and (nl == len(data) or cr == len(data)):
+            i -= 1
+            if data[i] == 10 and nl == len(data):
+                nl = i
+            if data[i] == 13 and cr == len(data):
+                cr = i
+        return min(nl, cr)
+''')]},
+    # the header stage skips empty lines, spelled differently
+    {"name": "header-loop-continue-on-empty-line", "edits": [(M, _HEADER_LOOP, '''        for raw in data.splitlines():
+            text = raw.strip()
+            if not text:
+                continue
+            key, _, val = text.decode().partition(":")
+            headers.append((key.strip(), val.strip()))
+        return Headers(headers)
+''')]},
+    {"name": "header-lines-filtered-in-a-comprehension", "edits": [(M, _HEADER_LOOP, '''        lines = [line.strip() for line in data.splitlines() if line.strip()]
+        for line in lines:
+            name, _, value = line.decode().partition(":")
+            headers.append((name.strip(), value.strip()))
+        return Headers(headers)
+''')]},
+    {"name": "header-lines-from-a-generator-helper-that-skips-empty-lines", "edits": [(M, _HEADER_LOOP, '''        for line in self._header_lines(data):
+            name, _, value = line.partition(":")
+            headers.append((name.strip(), value.strip()))
+        return Headers(headers)
+
+    @staticmethod
+    def _header_lines(block: bytes) -> t.Iterator[str]:
+        for raw in block.splitlines():
+            raw = raw.strip()
+            if raw:
+                yield raw.decode()
+''')]},
+    {"name": "header-line-tested-by-the-truth-of-its-stripped-copy", "edits": [(M, _HEADER_LOOP, '''        for line in data.splitlines():
+            if line.strip():
+                name, _, value = line.decode().partition(":")
+                headers.append((name.strip(), value.strip()))
+        return Headers(headers)
+''')]},
+    {"name": "headers-added-one-by-one-empty-lines-skipped", "edits": [(M, _HEADER_LOOP, '''        result = Headers()
+        for line in data.splitlines():
+            line = line.strip()
+            if len(line) > 0:
+                name, _, value = line.decode().partition(":")
+                result.add(name.strip(), value.strip())
+        return result
+''')]},
+    {"name": "header-block-through-a-local-bytes-copy", "edits": [
+        (M, _STAGE_CALL, "                block = bytes(self.buffer[: match.start()])\n                headers = self._parse_headers(block)\n")]},
+    {"name": "header-pairs-by-filtered-comprehension-into-the-constructor", "edits": [(M, _HEADER_LOOP, '''        pairs = (line.strip().decode().partition(":") for line in data.splitlines() if line.strip() != b"")
+        return Headers([(name.strip(), value.strip()) for name, _, value in pairs])
+''')]},
+]
+
+_EVENT_CHOICE = '''                if filename is not None:
+                    event = File(
+                        filename=filename,
+                        headers=headers,
+                        name=name,
+                    )
+                else:
+                    event = Field(
+                        headers=headers,
+                        name=name,
+                    )
+'''
+_EVENT_HELPER_CALL = "                event = self._opening_event(headers, name, filename)\n"
+_EVENT_HELPER = '''    def _opening_event(self, part_headers: Headers, name: str, filename: str | None) -> Event:
+        if filename is None:
+            return Field(headers=part_headers, name=name)
+        return File(filename=filename, headers=part_headers, name=name)
+
+    def _parse_headers(self, data: bytes) -> Headers:'''
+_PARSE_HEADERS_DEF = "    def _parse_headers(self, data: bytes) -> Headers:"
+
+TWINS += [
+    {"name": "part-opening-event-built-by-a-helper-given-the-headers", "edits": [
+        (M, _EVENT_CHOICE, _EVENT_HELPER_CALL), (M, _PARSE_HEADERS_DEF, _EVENT_HELPER)]},
+]
+MUTANTS += [
+    {"name": "event-helper-shape-header-lines-not-skipped", "expect": "R1.11", "edits": [
+        (M, _EVENT_CHOICE, _EVENT_HELPER_CALL), (M, _PARSE_HEADERS_DEF, _EVENT_HELPER),
+        (M, _HEADER_LOOP, '''        for line in data.splitlines():
+            name, _, value = line.decode().partition(":")
+            headers.append((name.strip(), value.strip()))
+        return Headers(headers)
+''')]},
+]
+
+_EVENT_BY_CLASS_IN_A_LOCAL = '''                make = File if filename is not None else Field
+                fields: dict[str, t.Any] = {"headers": headers, "name": name}
+                if filename is not None:
+                    fields["filename"] = filename
+                event = make(**fields)
+'''
+TWINS += [
+    {"name": "part-opening-event-class-chosen-into-a-local", "edits": [(M, _EVENT_CHOICE, _EVENT_BY_CLASS_IN_A_LOCAL)]},
+]
+MUTANTS += [
+    {"name": "event-class-in-a-local-shape-header-lines-not-skipped", "expect": "R1.11", "edits": [
+        (M, _EVENT_CHOICE, _EVENT_BY_CLASS_IN_A_LOCAL),
+        (M, _HEADER_LOOP, '''        for line in data.splitlines():
+            name, _, value = line.decode().partition(":")
+            headers.append((name.strip(), value.strip()))
+        return Headers(headers)
+''')]},
+]
